@@ -32,8 +32,8 @@ _RULE = (
     "dec skip <enc(tree) ++ suffix> #n=<len enc> #iid=<indefinite array/map somewhere inside a definite one>, on two builds of the real "
     "code (hcore = alloc skip; hnoalloc = standalone crate, minicbor without features = no-alloc skip) and on the model (skip / skip_noalloc).  "
     "Trees over scalar (uint/nint at every head width, simple, f8 xx, f16/f32/f64), definite/chunked bytes and text, definite/indefinite "
-    "array and map (also NON-preferred head widths), tags.  Families: (a) EXHAUSTIVE tree shapes with <= 4 nodes (5058 shapes; thorough: "
-    "<= 5 nodes, 90351 shapes; quick adds a seeded 1/16 sample of the 5-node shapes) over 5 leaf kinds + 4 container kinds + tag, payloads / "
+    "array and map (also NON-preferred head widths), tags.  Families: (a) EXHAUSTIVE tree shapes with <= 5 nodes (90351 shapes; in quick the "
+    "85293 five-node shapes get prefix cuts only for a seeded 1/16 of them) over 5 leaf kinds + 4 container kinds + tag, payloads / "
     "head widths by deterministic rotation; (b) seeded random trees to depth 8, <= 400 nodes (quick 3000, thorough 30000); (c) chains to depth "
     "10^3 (quick) / 10^4 (thorough): 9f^d ff^d, mixed 9f/bf, 81^d 9f ff, (82 9f)^d .. (ff 00)^d, alternating (81 9f)^d, tag chains, definite "
     "map chains, deep counting->stack switches (irounds = d at the switch; d None frames pushed after it); (d) mode-switch stress: nests of "
@@ -46,7 +46,8 @@ _RULE = (
 )
 ASSUMPTIONS = [
     "well-formedness of the generated items is by construction of the Python encoder enc() (definite counts = number of children, maps have an "
-    "even number of child items, text chunks are valid UTF-8 each, every indefinite container is closed by ff)",
+    "even number of child items, text chunks are valid UTF-8 each, every indefinite container is closed by ff) and is re-checked for every item "
+    "by an independent explicit-stack item-boundary parser in the orchestrator (ref_item_len), which must return exactly len(enc)",
     "the harness decodes from a slice; positions are Decoder::position() after the call (also after an error)",
     "prefix sweeps of items longer than 24 bytes (thorough: 256) are sampled at seeded cut points, not exhaustive",
 ]
@@ -145,6 +146,72 @@ def nodes(tree):
         elif k in ("iarr", "imap"): st.extend(x[1])
         elif k == "tag": st.append(x[3])
     return n
+
+
+def ref_item_len(b):
+    """independent reference item-boundary parser (RFC 8949 well-formedness, explicit stack): the length of the
+    single well-formed data item at the start of `b`, or None.  Used to self-check enc(): every generated item
+    must be exactly one item, and no strict prefix of it may be."""
+    pos = 0
+    st = []          # frames: remaining item count, or -1 = indefinite array, -2 / -3 = indefinite map with an even / odd
+                     # number of items so far (closed by ff; a map only on an even count)
+    n = len(b)
+    while True:
+        if pos >= n: return None
+        ib = b[pos]; pos += 1
+        maj, ai = ib >> 5, ib & 31
+        if ib == 0xff:
+            if not st or st[-1] not in (-1, -2): return None
+            st.pop()                                   # the container just closed is one finished item
+        else:
+            if ai < 24: arg = ai
+            elif ai < 28:
+                w = 1 << (ai - 24)
+                if pos + w > n: return None
+                arg = int.from_bytes(b[pos:pos + w], "big"); pos += w
+            elif ai == 31 and maj in (2, 3, 4, 5): arg = None
+            else: return None
+            if maj in (2, 3):
+                if arg is None:
+                    while True:
+                        if pos >= n: return None
+                        cb = b[pos]; pos += 1
+                        if cb == 0xff: break
+                        if cb >> 5 != maj: return None
+                        ca = cb & 31
+                        if ca < 24: cl = ca
+                        elif ca < 28:
+                            w = 1 << (ca - 24)
+                            if pos + w > n: return None
+                            cl = int.from_bytes(b[pos:pos + w], "big"); pos += w
+                        else: return None
+                        if pos + cl > n: return None
+                        if maj == 3:
+                            try: b[pos:pos + cl].decode("utf-8")
+                            except UnicodeDecodeError: return None
+                        pos += cl
+                else:
+                    if pos + arg > n: return None
+                    if maj == 3:
+                        try: b[pos:pos + arg].decode("utf-8")
+                        except UnicodeDecodeError: return None
+                    pos += arg
+            elif maj in (4, 5):
+                if arg is None: st.append(-1 if maj == 4 else -2); continue
+                cnt = arg * (maj - 3)
+                if cnt: st.append(cnt); continue
+            elif maj == 6:
+                continue                                # the tagged item follows and is the item
+            elif maj == 7 and ai == 24 and arg < 32:
+                return None
+        # one item finished: account for it in the enclosing frames
+        while True:
+            if not st: return pos
+            if st[-1] == -1: break
+            if st[-1] < -1: st[-1] = -5 - st[-1]; break
+            st[-1] -= 1
+            if st[-1]: break
+            st.pop()
 
 
 # ------------------------------------------------------------------------------- leaf material
@@ -471,6 +538,8 @@ def item_ops(rng, tree, ops, all_prefix_upto, ncuts, with_prefixes=True):
     e = enc(tree)
     n = len(e)
     iid = 1 if has_indef_inside_def(tree) else 0
+    if ref_item_len(e) != n:
+        raise AssertionError("C06 generator self-check: enc(tree) is not exactly one well-formed item: " + e.hex()[:200])
     ann = f"#n={n} #iid={iid}"
     ops.append(f"dec skip {(e + suffix(rng)).hex()} {ann}")
     if not with_prefixes:
@@ -501,16 +570,16 @@ def build_ops(rng, tier):
         for sh in shapes(n):
             item_ops(rng, instantiate(sh, rot), ops, upto, ncuts)
     if not thorough:
-        s5 = shapes(5)
+        # quick: every 5-node shape as a full item; strict prefixes (3 + ends) only for a seeded 1/16 of them
         off = rng.randrange(16)
-        for sh in s5[off::16]:
-            item_ops(rng, instantiate(sh, rot), ops, 0, 3)
+        for i, sh in enumerate(shapes(5)):
+            item_ops(rng, instantiate(sh, rot), ops, 0, 3, with_prefixes=(i % 16 == off))
     fams.append(("exhaustive", ops))
 
     # (b) random trees
     ops = []
     for t in random_trees(rng, 30000 if thorough else 3000):
-        item_ops(rng, t, ops, upto, ncuts)
+        item_ops(rng, t, ops, min(upto, 128), ncuts)      # thorough: all prefixes up to 128 bytes here (volume)
     fams.append(("random", ops))
 
     # (c) chains
@@ -586,7 +655,7 @@ class _NoallocStream(Stream):
     """rule text carries the run's iid counters (read by the runner after the stream was judged)."""
     @property
     def rule(self):
-        return self._rule + _stats_text()
+        return self._rule + _stats_text().replace("[this run,", "[cumulative over the no-alloc streams judged so far in this run,")
     @rule.setter
     def rule(self, v):
         self._rule = v
